@@ -30,6 +30,8 @@ def projects():
               rxn(6, ["c-C3H2", "H+"], ["l-C3H2", "H+"]), rxn(7, ["Si", "CR"], ["Si+", "e-"], 101), rxn(8, ["N2", "D+"], ["N2D+"]), rxn(9, ["CO"], ["#CO"], 200), rxn(10, ["GRAIN0", "e-"], ["GRAIN-"]), rxn(11, ["Si+", "Si+"], ["Si++++", "e-", "e-"]),
               rxn(12, ["HCO+", "e-"], ["H", "CO"]), rxn(13, ["H", "#H"], ["H2"]), rxn(14, ["O-", "e-"], ["O--"]), rxn(15, ["GRAIN-", "e-"], ["GRAIN--"]), rxn(16, ["O", "e-"], ["O-"])]
     out = [("naming", "net.naunet", _native_file(naming), "naunet", {}, "hh93")]
+    # required (extra) species that also occur in reactions -- same spelling, the other electron spelling, listed twice -- and one that does not
+    out.append(("required-overlap", "net.naunet", _native_file(naming[:8] + [naming[11]]), "naunet", {"extra": "H,He,E,H,CO,Ne"}, ""))
     out.append(("minimal.kida", "minimal.kida", open(REPO + "/tests/data/minimal.kida").read(), "kida", {}, ""))
     out.append(("primordial", "primordial.krome", open(REPO + "/naunet/examples/primordial/primordial.krome").read(), "krome", {"elements": "e,H,D,He", "pseudo": "Photon", "cooling": "CIC_HI,RC_HII"}, ""))
     ucl = "\n".join(["H,H,NAN,H2,NAN,NAN,NAN,1e-17,0.0,0.0,0,0", "HE,CRP,NAN,HE+,E-,NAN,NAN,0.5,0.0,0.0,10,41000", "MG,H+,NAN,MG+,H,NAN,NAN,1e-9,0.0,0.0,10,41000", "SI,CL+,NAN,SI+,CL,NAN,NAN,1e-9,0.0,0.0,10,41000", "CO,FREEZE,NAN,#CO,NAN,NAN,NAN,1.0,0.0,0.0,0.0,10000.0"]) + "\n"
@@ -39,7 +41,7 @@ def projects():
 
 def cli_args(fname, fmt, opt, model, solver, device, method):
     return ["--name", "t", "--description", "d", "--loading", "", "--elements", opt.get("elements", ""), "--pseudo-elements", opt.get("pseudo", "CR"), "--element-replacement", opt.get("replacement", ""),
-            "--surface-prefix", "#", "--bulk-prefix", "@", "--allowed-species", "", "--extra-species", "", "--binding", "", "--yield", "", "--grain-symbol", "GRAIN", "--grain-model", model,
+            "--surface-prefix", "#", "--bulk-prefix", "@", "--allowed-species", "", "--extra-species", opt.get("extra", ""), "--binding", "", "--yield", "", "--grain-symbol", "GRAIN", "--grain-model", model,
             "--network-files", fname, "--file-formats", fmt, "--heating", "", "--cooling", opt.get("cooling", ""), "--shielding", "", "--solver", solver, "--device", device, "--method", method]
 
 
@@ -50,7 +52,7 @@ def check_project(chk, name, fname, content, fmt, opt, model, kind):
     args = cli_args(fname, fmt, opt, model, tgt["solver"], tgt["device"], tgt["method"])
     if not opt.get("elements"):
         i = args.index("--elements")
-        args[i + 1] = "e,E,H,D,He,C,N,O,F,Na,Mg,Al,Si,P,S,Cl,Ar,Ca,Fe,Ni"
+        args[i + 1] = "e,E,H,D,He,C,N,O,F,Ne,Na,Mg,Al,Si,P,S,Cl,Ar,Ca,Fe,Ni"
         j = args.index("--pseudo-elements")
         args[j + 1] = "CR,CRP,XRAY,Photon,PHOTON,CRPHOT,X,M,p,o,m,c-,l-,\\*,g"
     p = proj.render_cli(f"c09-{name}", [{"name": fname, "content": content}], args, tdir)
